@@ -558,14 +558,18 @@ func (p *Parser) parseCommodityDirective(startPos Position) ast.Directive {
 }
 
 func (p *Parser) parseIncludeDirective(startPos Position) ast.Directive {
-	var path strings.Builder
-
+	// The path is the source text from its first to its last token: token values alone
+	// carry neither the blanks between tokens nor the delimiters of a quoted token.
+	from, to := p.current.Pos.Offset, p.current.Pos.Offset
 	for p.current.Type != TokenNewline && p.current.Type != TokenEOF && p.current.Type != TokenComment {
-		path.WriteString(p.current.Value)
+		to = p.current.End.Offset
 		p.advance()
 	}
 
-	pathStr := strings.TrimSpace(path.String())
+	pathStr := strings.TrimSpace(p.lexer.input[from:to])
+	if len(pathStr) >= 2 && pathStr[0] == '"' && pathStr[len(pathStr)-1] == '"' {
+		pathStr = pathStr[1 : len(pathStr)-1]
+	}
 	if pathStr == "" {
 		p.error("expected file path")
 		p.skipToNextLine()
